@@ -246,7 +246,7 @@ def ob_cd(nstack: int, form: int, s0: int, s1: int, s2: int, cwd_i: int, old_i: 
         dest = HOME
     elif kind in ("dir", "-P"):
         r = _resolve(t, real0)
-        if cdp and kind == "dir" and (r is None or r[0] != "dir"):
+        if cdp and (r is None or r[0] != "dir"):
             # $CDPATH: a name that is not a directory relative to the cwd is looked up under each $CDPATH entry
             # (xonsh documents: a relative directory is always preferred)
             r2 = _resolve("/r/a/" + t, "/")
@@ -612,7 +612,7 @@ _QB = ("quick tier canonicalises what an operation cannot depend on: rotation/se
        "target forms use stacks of <=1 entry, $OLDPWD varies only for `cd -`; thorough frees all of it; ")
 # quick partitions (canonicalised), thorough = everything free
 _CD_Q = ([dict(nstack=0, form=f, old_i=-1, cwd_i=0) for f in (0, 4, 5)] + [dict(nstack=0, form=2)]
-         + [dict(nstack=0, form=1, old_i=-1, cdp=True, auto_pushd=False)]
+         + [dict(nstack=0, form=f, old_i=-1, cdp=True, auto_pushd=False) for f in (1, 6)]
          + [dict(nstack=k, form=3, cwd_i=0, old_i=-1) for k in (0, 2)]
          + [dict(nstack=k, form=f, old_i=-1) for k in (0, 1) for f in (1, 6)])
 _PUSHD_Q = ([dict(nstack=k, form=0, cwd_i=0, gone=False) for k in (0, 1, 2)]
@@ -628,9 +628,10 @@ OBLIGATIONS = [
                symbolic="none (concrete validation of the reference model)"),
     Obligation("cd", ob_cd, bounds=_B + _QB + "cd with no arg / 10 target spellings / - / -N (0..4) / malformed / two args / -P; $AUTO_PUSHD; $DIRSTACK_SIZE 0..5",
                pre=_PRE + ["0 <= form < 7", "-1 <= old_i < 5", "0 <= tgt < 10", "0 <= n <= 4", "0 <= size <= 5"],
-               parts={"quick": _CD_Q, "thorough": [dict(nstack=k, form=f, old_i=-1) for k in range(3) for f in (0, 1, 3, 4, 5, 6)]
-                      + [dict(nstack=3, form=3, old_i=-1)] + [dict(nstack=k, form=2) for k in range(2)]
-                      + [dict(nstack=k, form=1, cdp=True, old_i=-1) for k in range(2)]},
+               parts={"quick": [dict(dict(cdp=False), **p) for p in _CD_Q],
+                      "thorough": [dict(nstack=k, form=f, old_i=-1, cdp=False) for k in range(3) for f in (0, 1, 3, 4, 5, 6)]
+                      + [dict(nstack=3, form=3, old_i=-1, cdp=False)] + [dict(nstack=k, form=2, cdp=False) for k in range(2)]
+                      + [dict(nstack=k, form=f, cdp=True, old_i=-1) for k in range(2) for f in (1, 6)]},
                timeout={"quick": 240, "thorough": 1500}, symbolic="state indices, target, N, flags, size"),
     Obligation("pushd", ob_pushd, bounds=_B + _QB + "pushd with no arg / 10 targets / +N / -N / malformed; -n; $PUSHD_MINUS; $DIRSTACK_SIZE 0..5; target removed before chdir",
                pre=_PRE + ["0 <= form < 5", "0 <= tgt < 10", "0 <= n <= 4", "0 <= size <= 5"],
